@@ -144,7 +144,7 @@ class Interp(ExprMixin):
                     nm = decl_name(d)
                     t = ctype_of_decl(st.base_type, d)
                     mod.gtypes[nm] = t
-                    dflt = getattr(d, "default", None)
+                    dflt = _decl_default(d)
                     if dflt is not None:
                         mod.ns[nm] = self.coerce(t, self.eval(dflt, fr))
                     elif isinstance(t, tuple) and t[0] == "array":
@@ -652,7 +652,7 @@ class Interp(ExprMixin):
             nm = decl_name(d)
             t = ctype_of_decl(n.base_type, d)
             fr.ctypes[nm] = t
-            dflt = getattr(d, "default", None)
+            dflt = _decl_default(d)
             if dflt is not None:
                 self.store_name(nm, self.eval(dflt, fr), fr)
             elif isinstance(t, tuple) and t[0] == "array":
@@ -1074,6 +1074,15 @@ class Interp(ExprMixin):
 
     def note_encoded(self, fi):
         self.encoded["%s:%s" % (fi.module.name, fi.qualname)] = fi.line
+
+
+def _decl_default(d):
+    while d is not None:
+        v = getattr(d, "default", None)
+        if v is not None:
+            return v
+        d = getattr(d, "base", None)
+    return None
 
 
 def _c_round(x):
